@@ -226,6 +226,44 @@ func factsAuth() {
 		boolFact(g, "isBypassLookup", iCopy >= 0 && iLook > iCopy && iRet > iLook, "IsBypass = membership of the 16-byte UID in sta.BypassUID")
 	}
 
+	// --- InitState: the key of every BypassUID / AdminUID entry is built in a FRESH 16-byte array (zero-padded entry), so that
+	// an entry shorter than 16 bytes does not inherit bytes of the previous one ---
+	if is := fnOf(sv, "InitState"); is == nil {
+		unrec(g, "bypassKeyFreshPerEntry", "InitState not found")
+	} else {
+		fresh := true
+		stores := 0
+		// every `sta.BypassUID[arrUID] = struct{}{}` must be preceded, in its own innermost block, by `var arrUID [16]byte` and one copy
+		ast.Inspect(is.Body, func(n ast.Node) bool {
+			blk, ok := n.(*ast.BlockStmt)
+			if !ok {
+				return true
+			}
+			for i, st := range blk.List {
+				as, isAs := st.(*ast.AssignStmt)
+				if !isAs || len(as.Lhs) != 1 || !strings.HasPrefix(show(as.Lhs[0]), "sta.BypassUID[") {
+					continue
+				}
+				stores++
+				key := strings.TrimSuffix(strings.TrimPrefix(show(as.Lhs[0]), "sta.BypassUID["), "]")
+				decl, copies := false, 0
+				for _, prev := range blk.List[:i] {
+					if ds, isDecl := prev.(*ast.DeclStmt); isDecl && strings.Contains(show(ds), "var "+key+" [16]byte") {
+						decl, copies = true, 0
+					}
+					if es, isEs := prev.(*ast.ExprStmt); isEs && strings.HasPrefix(show(es.X), "copy("+key+"[:], ") {
+						copies++
+					}
+				}
+				if !decl || copies != 1 {
+					fresh = false
+				}
+			}
+			return true
+		})
+		boolFact(g, "bypassKeyFreshPerEntry", fresh && stores >= 1, "InitState: each sta.BypassUID[key] store uses a key array declared (zeroed) in the same block and filled by one copy")
+	}
+
 	// --- user database comparisons ---
 	for _, spec := range []struct{ fn, pre string }{{"localManager.AuthenticateUser", "authn"}, {"localManager.AuthoriseNewSession", "authz"}} {
 		fn = fnOf(um, spec.fn)
